@@ -388,10 +388,39 @@ pub fn expect_of(acs: &[F]) -> Expect {
     if acs.len() <= 7 {
         let o = Oracle::new(acs);
         Expect { stable: oracle::stable(acs), two: o.two_valued(), grd: o.grounded().0 }
-    } else {
+    } else if acs.len() <= 16 {
         let (stable, two) = oracle::stable_wide(acs);
+        // the two oracles for wide ADFs are cross-checked whenever both apply
+        if let Some((s2, t2)) = oracle::stable_sparse(acs) {
+            assert!(s2 == stable && t2 == two, "ORACLE SELF-CHECK failed: stable_wide vs stable_sparse");
+        }
+        Expect { stable, two, grd: oracle::grounded_local(acs).0 }
+    } else {
+        let (stable, two) = oracle::stable_sparse(acs).expect("generator keeps the number of statements on cycles small");
         Expect { stable, two, grd: oracle::grounded_local(acs).0 }
     }
+}
+
+/// wide ADFs (66..140 statements) with a small cyclic core placed first / last / in the middle of the declaration order
+pub fn sem_case_wide_core(lo: usize, hi: usize, hang: usize) -> BoxedStrategy<SemCase> {
+    (gen::adf_stratified(lo, hi, hang), sort_strategy())
+        .prop_map(|(acs, sort)| {
+            let mut adf = gen::AdfCase::simple(acs);
+            // zero-padded labels: every sort mode keeps the generated order (dependencies stay local in the variable order)
+            adf.labels = (0..adf.acs.len()).map(|i| format!("w{i:03}")).collect();
+            SemCase { adf, sort }
+        })
+        .boxed()
+}
+
+pub fn sem_case_wide_chains(lo: usize, hi: usize) -> BoxedStrategy<SemCase> {
+    (gen::adf_core_chains(lo, hi), sort_strategy())
+        .prop_map(|(acs, sort)| {
+            let mut adf = gen::AdfCase::simple(acs);
+            adf.labels = (0..adf.acs.len()).map(|i| format!("w{i:03}")).collect();
+            SemCase { adf, sort }
+        })
+        .boxed()
 }
 
 pub fn sem_case_many_models(lo: usize, hi: usize) -> BoxedStrategy<SemCase> {
@@ -557,6 +586,8 @@ pub fn c03(tier: Tier) -> PropSpec {
         Part::new("many-models", tier.pick(2500, 25000), || sem_case_many_models(6, 11), c03_check),
         // the shared variable container grows between building the biodivine ADF and the hybrid step
         Part::new("grown-container", tier.pick(3000, 30000), || sem_case(1, 6), c03_grown_check),
+        // more statements than a machine word has bits, models that differ only in the first / last declared statements
+        Part::with_shrink("wide-core", tier.pick(500, 5000), 60, || sem_case_wide_core(62, 140, 5), c03_check),
         Box::new(Logged(Part::new("small-with-logging", tier.pick(1500, 15000), || sem_case(1, 5), c03_check))),
         crate::props::cli::sem_cli_part("cli-stm", &[crate::props::cli::Flag::Stm, crate::props::cli::Flag::StmPre, crate::props::cli::Flag::StmRew, crate::props::cli::Flag::StmRew2], tier.pick(150, 1500))],
     }
@@ -640,6 +671,7 @@ pub fn c04(tier: Tier) -> PropSpec {
             c04_check,
         ),
         Part::new("many-models", tier.pick(1500, 15000), || sem_case_many_models(6, 11), c04_check),
+        Part::with_shrink("wide-core", tier.pick(500, 5000), 60, || sem_case_wide_core(62, 140, 5), c04_check),
         Box::new(Logged(Part::new("small-with-logging", tier.pick(1500, 15000), || sem_case(1, 5), c04_check))),
         crate::props::cli::sem_cli_part("cli-stmc", &[crate::props::cli::Flag::StmCa, crate::props::cli::Flag::StmCb], tier.pick(150, 1500))],
     }
@@ -756,7 +788,8 @@ fn c05_check(c: &C05Case, st: &mut Stats) -> CheckResult {
     };
     let grd = ex.grd;
     let und = grd.iter().filter(|t| !t.decided()).count();
-    let limit = 2 * (2 * n as u64 + 4) * (pow3(n) + 1);
+    // wide ADFs (parts wide-core / wide-chains): few statements on cycles, everything else follows by propagation
+    let limit = if n > 16 { 4000 * n as u64 } else { 2 * (2 * n as u64 + 4) * (pow3(n) + 1) };
     let backend = [Backend::Native, Backend::HybridPre, Backend::HybridNoPre, Backend::FromBio][(c.backend % 4) as usize];
     let res = sut::with_parser(&text, c.sem.sort, |p| -> Result<(u64, u64), String> {
         let names = parser_names(p);
@@ -951,6 +984,30 @@ pub fn c05(tier: Tier) -> PropSpec {
             100,
             || {
                 (sem_case_many_models(6, 9), heu_strategy(), prop_oneof![Just(NgMode::StableIter), Just(NgMode::StableChannel), Just(NgMode::TwoValChannel)], 0u8..4)
+                    .prop_map(|(sem, heu, mode, backend)| C05Case { sem, heu, mode, backend })
+                    .boxed()
+            },
+            c05_check,
+        ),
+        // 60..140 statements: a small cyclic core with up to 5 statements hanging off it (wide-core) or with long chains
+        // hanging off it so that nearly every statement is undecided after grounding (wide-chains)
+        Part::with_shrink(
+            "wide-core",
+            tier.pick(600, 6000),
+            60,
+            || {
+                (sem_case_wide_core(60, 140, 5), heu_strategy(), prop_oneof![Just(NgMode::StableIter), Just(NgMode::StableChannel), Just(NgMode::TwoValChannel)], 0u8..4)
+                    .prop_map(|(sem, heu, mode, backend)| C05Case { sem, heu, mode, backend })
+                    .boxed()
+            },
+            c05_check,
+        ),
+        Part::with_shrink(
+            "wide-chains",
+            tier.pick(600, 6000),
+            60,
+            || {
+                (sem_case_wide_chains(58, 135), heu_strategy(), prop_oneof![Just(NgMode::StableIter), Just(NgMode::StableChannel), Just(NgMode::TwoValChannel)], 0u8..4)
                     .prop_map(|(sem, heu, mode, backend)| C05Case { sem, heu, mode, backend })
                     .boxed()
             },
